@@ -995,6 +995,10 @@ func (c *client) establishRegion(reg hrpc.RegionInfo, addr string) {
 					c.effectiveUser, c.regionReadTimeout, c.compressionCodec,
 					c.regionDialer, c.logger)
 			})
+			if client == nil {
+				// client has been closed
+				return
+			}
 		}
 
 		// connect to the region's regionserver.
@@ -1008,6 +1012,12 @@ func (c *client) establishRegion(reg hrpc.RegionInfo, addr string) {
 			if reg == c.adminRegionInfo {
 				reg.SetClient(client)
 				reg.MarkAvailable()
+				select {
+				case <-c.done:
+					// Close has or will have missed this client
+					client.Close()
+				default:
+				}
 				return
 			}
 
